@@ -91,8 +91,9 @@ def role_of(W, f):
         if any(isinstance(c, type) for c in cells) and "super" in code.co_names:
             return ["passon"]
     if qn.startswith("_decorate_with_invariants"):
-        doc = code.co_consts[0] if code.co_consts and isinstance(code.co_consts[0], str) else ""
-        return ["inv", "__init__" in doc]
+        # the wrapper of a constructor evaluates all invariants, the one of a method those selected by the event
+        # (told apart by the names the code uses: docstrings are gone under -OO)
+        return ["inv", "__invariants__" in code.co_names and "__invariants_on_call__" not in code.co_names]
     return ["orig"]
 
 
@@ -269,6 +270,8 @@ def run_case(case):
 
 def main():
     payload = json.load(sys.stdin)
+    if payload.get("explicit_enabled"):
+        gen_elab.EXPLICIT_ENABLED = True
     res = []
     for case in payload["cases"]:
         try:
